@@ -114,6 +114,16 @@ def answer : List String → String
   | ["readisnone", dt, v] => match parseDT? dt, parseSV? v with
       | some dt, some v => showBool (readIsNone dt v)
       | _, _ => "bad-op"
+  | ["directarr", dt, size, rows] =>
+      match parseDT? dt, parseNat? size, parseList? (fun r => if r = "N" then some none else (parseList? parseSV? r).map some) rows with
+      | some dt, some size, some xs =>
+        match replaceNonesArr dt size xs with
+        | none => "reject"
+        | some stored => showList (fun r => match readRowArr dt r with
+            | .none => "N"
+            | .full row => showList showSV row
+            | .part row => "[p," ++ showList (fun o => match o with | none => "N" | some v => showSV v) row ++ "]") stored
+      | _, _, _ => "bad-op"
   | ["tobytes", v, w] => match parseNat? v, parseNat? w with
       | some v, some w => showOpt showNats (toBytes v w)
       | _, _ => "bad-op"
